@@ -246,7 +246,8 @@ def gammastd_yxt(
                 for ti in range(t):
                     if s[ti] == nodata:
                         continue
-                    s[ti] = s[ti] * 1000
+                    # saturate instead of wrapping when the index leaves int16 (or is infinite)
+                    s[ti] = min(max(s[ti] * 1000, -32767.0), 32767.0)
                 np.round(s, 0, s)
                 y[ri, ci, :] = s[:]
 
@@ -285,7 +286,8 @@ def gammastd_grp(xx, groups, num_groups, nodata, cal_indices, yy):
         res = gammastd(pix, nodata, cal_start, cal_stop)
         if (res != nodata).sum() > 0:
             valid_ix = res != nodata
-            res[valid_ix] = res[valid_ix] * 1000
+            # saturate instead of wrapping when the index leaves int16 (or is infinite)
+            res[valid_ix] = np.minimum(np.maximum(res[valid_ix] * 1000, -32767.0), 32767.0)
             np.round(res, 0, res)
         yy[grp_ix] = res[:]
 
